@@ -4,23 +4,30 @@
 //  (a) poll fd readable but the NONBLOCK op returns NNG_EAGAIN   (busy loop)
 //  (b) NONBLOCK op succeeds although the fd was not readable     (missed wake-up)
 //  (c) NONBLOCK op returns NNG_EAGAIN and the same op re-issued at once with a
-//      100 ms timeout succeeds with no other stimulus             (could-but-didn't)
+//      30 ms timeout (carried by an aio) succeeds with no other stimulus
+//                                                                 (could-but-didn't)
 //  (d) the calling thread sleeps inside a NONBLOCK call: > 1.5 s (protocol
 //      timers are >= 2 s), or > 400 ms twice in a row            (blocks)
 //  (e) after a failed NONBLOCK send the caller still owns the message (ASan /
 //      allocator balance decide: the harness frees it; a failed zero-timeout
 //      aio still carries it), and a flagged call never fails with ETIMEDOUT.
-// (a)/(b) are only reported if they persist after a further settle period.
+// (a) is only reported if it persists after a further settle period; (b) only
+// if, between the sample of the descriptor and the call, nothing happened in
+// the library and nothing was in flight in any TCP socket of the process (and,
+// where a TCP out-queue is full on purpose, "not readable" held at two
+// quiescent points 200 ms apart with the kernel's queues unchanged).
 // Every probe is issued in one of the API forms nng_recvmsg/nng_sendmsg,
 // nng_recv/nng_send (buffers), zero-timeout aio on the socket, and
 // nng_ctx_recvmsg/nng_ctx_sendmsg or zero-timeout aio on an extra context;
 // the descriptors describe the socket forms, and socket probes follow context
 // activity.  (NNG_FLAG_ALLOC does not exist in this version of the API.)
 // Quiescent = hook counters zero AND every other thread of the process asleep
-// (and, before clause (c) is judged over tcp, nothing unacknowledged in any
-// TCP socket of the process): no verdict depends on how loaded the machine is.
+// AND no TCP socket of the process (both ends are ours) has bytes that were
+// sent but are not yet acknowledged: no verdict depends on how loaded the
+// machine is.
 #include "vfh.h"
 #include <poll.h>
+#include <errno.h>
 #include <unistd.h>
 #include <fcntl.h>
 #include <dirent.h>
@@ -28,7 +35,14 @@
 #include <sys/socket.h>
 #include <sys/syscall.h>
 #include <netinet/in.h>
+#include <netinet/tcp.h>
 #include <linux/sockios.h>
+
+typedef struct {
+	long     inflight; // sent, not acknowledged
+	long     unsent;   // queued behind a closed window
+	uint64_t h;
+} kq_t;
 
 typedef struct {
 	const vf_proto *pr;
@@ -57,7 +71,32 @@ typedef struct {
 	bool            peer_open;
 	nng_listener    lst;
 	char            durl[128];
+	bool            dials;            // role swap: the peers listen, the probed socket dials them
+	bool            poly;             // pair1 polyamorous
+	nng_dialer      dialers[3];
+	char            tname[24];        // transport (and role) as it appears in classes
+	kq_t            kq;               // kernel queues of the TCP connections at the last settle
+	long            settled_at;       // library event counter at the last settle
+	volatile long   pipe_events;      // pipes added / removed so far
 } cx_t;
+
+// pair1 POLYAMOROUS is a cooked protocol of its own (own send path, own
+// per-pipe queues, descriptors taken from the socket's message queues): it
+// gets its own name; its peers are ordinary pair1 sockets, up to three.
+static const vf_proto poly_proto = { "pair1poly", nng_pair1_open_poly, NULL, 0x11, 0x11, "pair1" };
+#define NPROTOS (vf_nprotos + 1)
+static const vf_proto *
+proto_at(int pi)
+{
+	return pi < vf_nprotos ? &vf_protos[pi] : &poly_proto;
+}
+
+// one peer only (PAIR, not polyamorous)
+static bool
+single_peer(const vf_proto *pr)
+{
+	return strncmp(pr->name, "pair", 4) == 0 && pr != &poly_proto;
+}
 
 // API forms of one operation.  The first three act on the socket (and so on
 // its default context: the poll descriptors describe them), the last two on
@@ -73,7 +112,9 @@ static void
 pipe_cb(nng_pipe p, nng_pipe_ev ev, void *arg)
 {
 	cx_t *c = arg;
+	if (vf_verbose > 1) fprintf(stderr, "   pipe %u %s (dialer %d)\n", nng_pipe_id(p), ev == NNG_PIPE_EV_ADD_POST ? "added" : "removed", nng_dialer_id(nng_pipe_dialer(p)));
 	pthread_mutex_lock(&pipes_mtx);
+	c->pipe_events++;
 	if (ev == NNG_PIPE_EV_ADD_POST) {
 		if (c->npipes < 16) c->pipes[c->npipes++] = p;
 	} else if (ev == NNG_PIPE_EV_REM_POST) {
@@ -137,34 +178,137 @@ threads_all_asleep(void)
 }
 
 // ... and no TCP socket of this process (both ends of every connection are
-// ours) has bytes that were written but are not yet acknowledged: whatever
-// was sent has reached the receiving socket (and woken its poller, if that
-// was armed), however long the kernel's soft interrupts are delayed.
-static bool
-tcp_all_delivered(void)
+// ours) has bytes that were sent but are not yet acknowledged: whatever was
+// sent has reached the receiving socket (and woken its poller, if that was
+// armed), however long the kernel's soft interrupts are delayed.  Bytes that
+// are queued but NOT yet sent (the receiver's window is closed because the
+// peer does not read: back pressure made on purpose) are not "on their way".
+// The snapshot also carries a hash of every queue length, so that "nothing
+// moved in the kernel between two points" can be stated.
+
+// the live TCP connections of the process; descriptors are handed out lowest
+// first, so a long run of unused numbers ends the scan
+static int
+tcp_fds(int *out, int max)
 {
-	for (int fd = 3; fd < 256; fd++) {
-		int                     ty, q = 0;
+	int n = 0, bad = 0;
+	for (int fd = 3; fd < 1024 && bad < 24 && n < max; fd++) {
+		int                     ty;
 		socklen_t               l = sizeof(ty);
 		struct sockaddr_storage ss;
 		socklen_t               sl = sizeof(ss);
-		if (getsockopt(fd, SOL_SOCKET, SO_TYPE, &ty, &l) != 0 || ty != SOCK_STREAM) continue;
+		struct tcp_info         ti;
+		socklen_t               tl = sizeof(ti);
+		if (getsockopt(fd, SOL_SOCKET, SO_TYPE, &ty, &l) != 0) {
+			bad = errno == EBADF ? bad + 1 : 0;
+			continue;
+		}
+		bad = 0;
+		if (ty != SOCK_STREAM) continue;
 		if (getsockname(fd, (struct sockaddr *) &ss, &sl) != 0 || (ss.ss_family != AF_INET && ss.ss_family != AF_INET6)) continue;
-		if (ioctl(fd, SIOCOUTQ, &q) == 0 && q > 0) return false;
+		// a connection that was reset (the peer closed with our data unread,
+		// or was gone when we sent) keeps its byte counts for ever: it is
+		// dead, nothing of it is on its way
+		if (getsockopt(fd, IPPROTO_TCP, TCP_INFO, &ti, &tl) == 0 && (ti.tcpi_state == TCP_CLOSE || ti.tcpi_state == TCP_LISTEN)) continue;
+		out[n++] = fd;
 	}
-	return true;
+	return n;
+}
+
+static void
+kq_sample(kq_t *k)
+{
+	k->inflight = k->unsent = 0;
+	k->h        = 1469598103934665603ULL;
+	int fds[64], n = tcp_fds(fds, 64);
+	for (int j = 0; j < n; j++) {
+		int q = 0, nsd = 0, inq = 0, fd = fds[j];
+		if (ioctl(fd, SIOCOUTQ, &q) != 0) q = 0;
+		if (ioctl(fd, SIOCOUTQNSD, &nsd) != 0) nsd = 0;
+		if (ioctl(fd, SIOCINQ, &inq) != 0) inq = 0;
+		if (q > nsd) k->inflight += q - nsd;
+		k->unsent += nsd;
+		uint64_t v[4] = { (uint64_t) fd, (uint64_t) q, (uint64_t) nsd, (uint64_t) inq };
+		for (int i = 0; i < 4; i++) k->h = (k->h ^ v[i]) * 1099511628211ULL;
+	}
 }
 
 static bool
+tcp_nothing_in_flight(void)
+{
+	kq_t k;
+	kq_sample(&k);
+	return k.inflight == 0;
+}
+
+// Limit what the kernel buffers on every TCP connection of the process, so
+// that a few large messages fill the path to a peer that does not read.
+static void
+tcp_small_buffers(int bytes)
+{
+	int fds[64], n = tcp_fds(fds, 64);
+	for (int j = 0; j < n; j++) {
+		setsockopt(fds[j], SOL_SOCKET, SO_SNDBUF, &bytes, sizeof(bytes));
+		setsockopt(fds[j], SOL_SOCKET, SO_RCVBUF, &bytes, sizeof(bytes));
+	}
+}
+
+// An acknowledgement that the receiving kernel holds back (delayed ACK: 40 ms
+// and more) is sent at once when TCP_QUICKACK is set on the receiving socket:
+// then "not yet acknowledged" means "not yet delivered", and nothing has to
+// be waited for that is not really on its way.
+static void
+tcp_flush_acks(void)
+{
+	int fds[64], n = tcp_fds(fds, 64), one = 1;
+	for (int j = 0; j < n; j++) setsockopt(fds[j], IPPROTO_TCP, TCP_QUICKACK, &one, sizeof(one));
+}
+
+static long activity(void);
+
+// The order matters: nothing in flight at t1, then every thread asleep at
+// t2 > t1 (whatever a delivery before t1 woke is visible at t2, running or
+// runnable), and no library event between before-t1 and after-t2 (a thread
+// that ran and went back to sleep in between - and may have sent - shows in
+// the counters).  The snapshot of t1 and the counter value are kept for the
+// probe that follows.
+static bool
 settle(cx_t *c)
 {
+	int flying = 0;
 	for (int tries = 0; tries < 300; tries++) {
 		if (!vf_quiesce(c->tran == VF_T_INPROC ? 1 : 3, 2000)) return false;
 		if (c->tran != VF_T_INPROC) {
 			vf_msleep(3);
 			if (!vf_quiesce(3, 2000)) return false;
 		}
-		if (threads_all_asleep() && vf_inflight() == 0) return true;
+		long a = activity();
+		if (c->tran == VF_T_TCP) {
+			kq_sample(&c->kq);
+			if (c->kq.inflight != 0) {
+				tcp_flush_acks();
+				if (flying++ == 0) continue; // look again at once
+				if (flying == 2) vf_stat("settle_waited_for_tcp_ack", 1);
+				if (flying > 100) {
+					if (vf_verbose) {
+						int fds[64], n = tcp_fds(fds, 64);
+						for (int j = 0; j < n; j++) {
+							int q = 0, nsd = 0, inq = 0;
+							ioctl(fds[j], SIOCOUTQ, &q); ioctl(fds[j], SIOCOUTQNSD, &nsd); ioctl(fds[j], SIOCINQ, &inq);
+							fprintf(stderr, "  settle: tcp fd %d outq %d notsent %d inq %d\n", fds[j], q, nsd, inq);
+						}
+					}
+					return false;
+				}
+				tries--;
+				vf_msleep(1);
+				continue;
+			}
+		}
+		if (threads_all_asleep() && vf_inflight() == 0 && activity() == a) {
+			c->settled_at = a;
+			return true;
+		}
 		vf_stat("settle_retries_thread_runnable", 1);
 		vf_msleep(1);
 	}
@@ -185,20 +329,31 @@ activity(void)
 static bool
 still_idle(cx_t *c)
 {
-	long a = activity();
-	vf_msleep(10);
-	if (c->tran != VF_T_INPROC) {
-		int i = 0;
-		while (!tcp_all_delivered()) {
-			if (++i > 300) return false;
-			vf_msleep(1);
+	for (int round = 0; round < 2; round++) {
+		long a = activity();
+		kq_t k0, k1;
+		if (c->tran == VF_T_TCP) kq_sample(&k0);
+		vf_msleep(10);
+		if (c->tran == VF_T_TCP) {
+			int i = 0;
+			for (;;) {
+				kq_sample(&k1);
+				if (k1.inflight == 0) break;
+				if (++i > 300) return false;
+				tcp_flush_acks();
+				if (i > 1) vf_msleep(1);
+			}
+			if (i > 0) {
+				vf_stat("idle_checks_waited_for_tcp_ack", 1);
+				vf_msleep(2);
+			}
+			// an acknowledgement that arrived meanwhile is a movement too:
+			// look once more, over a fresh window
+			if (k1.h != k0.h) continue;
 		}
-		if (i > 0) {
-			vf_stat("idle_checks_waited_for_tcp_ack", 1);
-			vf_msleep(2);
-		}
+		return activity() == a && vf_inflight() == 0 && threads_all_asleep() && activity() == a;
 	}
-	return activity() == a && vf_inflight() == 0 && threads_all_asleep() && activity() == a;
+	return false;
 }
 
 // The poll descriptors are created lazily by the library, on first request.
@@ -234,19 +389,20 @@ do_recv(cx_t *c, int form, bool nb, int tmo, nng_msg **mp)
 {
 	int rv;
 	*mp = NULL;
+	// The timed retry carries its timeout in an aio: the socket's own
+	// timeouts stay at 5 s, so a NONBLOCK call that (wrongly) waits for the
+	// socket timeout sleeps long enough for clause (d).
+	if (!nb) form = form >= F_CTX ? F_CTXAIO : F_AIO;
 	switch (form) {
 	case F_MSG:
-		if (!nb) nng_socket_set_ms(c->s, NNG_OPT_RECVTIMEO, tmo);
-		return nng_recvmsg(c->s, mp, nb ? NNG_FLAG_NONBLOCK : 0);
+		return nng_recvmsg(c->s, mp, NNG_FLAG_NONBLOCK);
 	case F_BUF: {
 		char   buf[256];
 		size_t sz = sizeof(buf);
-		if (!nb) nng_socket_set_ms(c->s, NNG_OPT_RECVTIMEO, tmo);
-		return nng_recv(c->s, buf, &sz, nb ? NNG_FLAG_NONBLOCK : 0);
+		return nng_recv(c->s, buf, &sz, NNG_FLAG_NONBLOCK);
 	}
 	case F_CTX:
-		if (!nb) nng_ctx_set_ms(c->ctx, NNG_OPT_RECVTIMEO, tmo);
-		return nng_ctx_recvmsg(c->ctx, mp, nb ? NNG_FLAG_NONBLOCK : 0);
+		return nng_ctx_recvmsg(c->ctx, mp, NNG_FLAG_NONBLOCK);
 	default: {
 		nng_aio *a;
 		if (nng_aio_alloc(&a, NULL, NULL) != 0) vf_harness_fail("aio alloc");
@@ -269,20 +425,18 @@ static int
 do_send(cx_t *c, int form, bool nb, int tmo, nng_msg *m, const char *after)
 {
 	int rv;
+	if (!nb) form = form >= F_CTX ? F_CTXAIO : F_AIO; // see do_recv
 	switch (form) {
 	case F_MSG:
-		if (!nb) nng_socket_set_ms(c->s, NNG_OPT_SENDTIMEO, tmo);
-		return nng_sendmsg(c->s, m, nb ? NNG_FLAG_NONBLOCK : 0);
+		return nng_sendmsg(c->s, m, NNG_FLAG_NONBLOCK);
 	case F_BUF:
 		// the caller's buffer is copied: the library's copy is the library's
 		// business in both outcomes (allocator balance decides)
-		if (!nb) nng_socket_set_ms(c->s, NNG_OPT_SENDTIMEO, tmo);
-		rv = nng_send(c->s, nng_msg_body(m), nng_msg_len(m), nb ? NNG_FLAG_NONBLOCK : 0);
+		rv = nng_send(c->s, nng_msg_body(m), nng_msg_len(m), NNG_FLAG_NONBLOCK);
 		if (rv == 0) nng_msg_free(m);
 		return rv;
 	case F_CTX:
-		if (!nb) nng_ctx_set_ms(c->ctx, NNG_OPT_SENDTIMEO, tmo);
-		return nng_ctx_sendmsg(c->ctx, m, nb ? NNG_FLAG_NONBLOCK : 0);
+		return nng_ctx_sendmsg(c->ctx, m, NNG_FLAG_NONBLOCK);
 	default: {
 		nng_aio *a;
 		if (nng_aio_alloc(&a, NULL, NULL) != 0) vf_harness_fail("aio alloc");
@@ -356,7 +510,11 @@ probe(cx_t *c, bool send, int form, const char *after)
 	nng_msg    *m    = NULL;
 	bool        echo = false;
 	bool        tried_before = c->send_tried_since_recv;
-	if (!settle(c)) { vf_stat("not_quiescent", 1); return -1; }
+	if (!settle(c)) {
+		vf_stat("not_quiescent", 1);
+		if (vf_verbose) fprintf(stderr, "  not quiescent: inflight %ld tasks+polls+reaps+expires %ld\n", vf_inflight(), activity());
+		return -1;
+	}
 	if (send) {
 		if (c->stash != NULL && c->raw) {
 			// raw protocols need the routing header back; sometimes keep the
@@ -368,12 +526,23 @@ probe(cx_t *c, bool send, int form, const char *after)
 				c->stash = NULL;
 			}
 			echo = true;
+			if (c->msg_size > nng_msg_len(m)) {
+				// a large message with the routing header of the stashed one
+				size_t pad = c->msg_size - nng_msg_len(m);
+				void  *z   = calloc(1, pad);
+				if (z == NULL || nng_msg_append(m, z, pad) != 0) vf_harness_fail("pad");
+				free(z);
+			}
 			if (form == F_BUF) form = F_MSG; // a buffer has no header
 		} else {
 			m = fresh_msg(c);
+			// polyamorous: sometimes address the pipe the last received
+			// message came from (otherwise: any connected peer)
+			if (c->poly && c->stash != NULL && (c->seq & 1)) nng_msg_set_pipe(m, nng_msg_get_pipe(c->stash));
 		}
 	}
-	int pre = -1;
+	int  pre = -1;
+	long a0  = c->settled_at;
 	if (!ctxf) pre = send ? (c->have_sfd ? fd_readable(c->sfd) : -1) : (c->have_rfd ? fd_readable(c->rfd) : -1);
 	bool pre_stable = false;
 	if (c->confirm_pre && send && !ctxf && pre == 1) {
@@ -384,9 +553,37 @@ probe(cx_t *c, bool send, int form, const char *after)
 		// 200 ms apart, with nothing done in between.
 		vf_msleep(200);
 		if (!settle(c)) { vf_stat("not_quiescent", 1); nng_msg_free(m); return -1; }
+		a0         = c->settled_at;
 		pre        = fd_readable(c->sfd);
 		pre_stable = pre == 1;
 	}
+	// "Not readable" is a statement about the library only if nothing was on
+	// its way when the descriptor was sampled and nothing happened between
+	// the sample and the call: hook counters unchanged, every other thread
+	// asleep, nothing sent-but-unacknowledged in any TCP socket.  Where a TCP
+	// out-queue is full on purpose (the window is closed; what re-opens it -
+	// a window update - is not visible in any queue length) the persistence
+	// re-check is made BEFORE the call, because a success changes the state:
+	// not readable at two quiescent points 200 ms apart with every kernel
+	// queue length unchanged.
+	bool pre_sure = true;
+	if (pre == 0) {
+		if (c->tran == VF_T_TCP && c->kq.unsent > 0) {
+			kq_t k0 = c->kq, k1;
+			vf_msleep(200);
+			if (!settle(c)) { vf_stat("not_quiescent", 1); if (send) nng_msg_free(m); return -1; }
+			a0  = c->settled_at;
+			pre = send ? fd_readable(c->sfd) : fd_readable(c->rfd);
+			kq_sample(&k1);
+			if (c->kq.h != k0.h || k1.h != k0.h) pre_sure = false;
+			if (pre == 0 && pre_sure) vf_stat("unreadable_confirmed_under_backpressure", 1);
+		}
+		// (settle: nothing in flight, then every thread asleep; and since then)
+		if (vf_inflight() != 0 || activity() != a0) pre_sure = false;
+	}
+	// (timers and reaps are never the doing of a NONBLOCK call itself: one that
+	// fires while the call runs is a stimulus of its own)
+	long timers0 = vf_ev_count(NNI_VE_AIO_EXPIRE) + vf_ev_count(NNI_VE_REAP_BEGIN);
 	bool lazy = false;
 	if (!ctxf && pre >= 0 && (send ? c->lazy_s : c->lazy_r)) {
 		// first look at a descriptor that was created after the history so far
@@ -408,7 +605,7 @@ probe(cx_t *c, bool send, int form, const char *after)
 	vf_stat(stat, 1);
 	if (send && !ctxf) c->send_tried_since_recv = true;
 	if (vf_verbose) fprintf(stderr, "  probe %s %s-%s fd%d rv=%d after %s\n", c->name, op, form_names[form], pre, rv, after);
-	vf_class("%s/%s/%s%s/fd%d/rv=%d/after=%s", c->name, vf_tran_names[c->tran], op, echo ? "-echo" : "", pre, rvclass(rv), after);
+	vf_class("%s/%s/%s%s/fd%d/rv=%d/after=%s", c->name, c->tname, op, echo ? "-echo" : "", pre, rvclass(rv), after);
 	vf_class("form:%s/%s-%s/rv=%d", c->name, op, form_names[form], rvclass(rv));
 	if (lazy) vf_class("lazy:%s/%s/fd%d/rv=%d", c->name, op, pre, rvclass(rv));
 	if (ms > 400.0) {
@@ -440,7 +637,10 @@ probe(cx_t *c, bool send, int form, const char *after)
 		return rv;
 	}
 	if (rv == 0) {
-		if (pre == 0) {
+		if (pre == 0 && vf_ev_count(NNI_VE_AIO_EXPIRE) + vf_ev_count(NNI_VE_REAP_BEGIN) != timers0) pre_sure = false;
+		if (pre == 0 && !pre_sure) {
+			vf_stat("missed_wakeup_unjudged_not_quiet", 1);
+		} else if (pre == 0) {
 			// (b) the fd was sampled at quiescence, so a success means the
 			// descriptor missed the readiness
 			snprintf(key, sizeof(key), "C15/missed-wakeup/%s.%s", c->name, op);
@@ -571,31 +771,49 @@ probe_all(cx_t *c, const char *after)
 	}
 }
 
-// Open the local socket: options, extra context, listener.
+// Open the local socket: options, extra context, listener (or, with the
+// roles swapped, nothing: every peer listens and the local socket dials it,
+// so its pipes come from dialers and, after a loss, from its own redial).
 static void
-open_local(cx_t *c, int pi, bool raw, int tran, vf_rng *r)
+open_local(cx_t *c, int pi, bool raw, int tran, vf_rng *r, bool dials)
 {
 	int  rv;
 	char url[128];
 	memset(c, 0, sizeof(*c));
-	c->pr   = &vf_protos[pi];
-	c->raw  = raw;
-	c->tran = tran;
-	c->r    = r;
+	c->pr    = proto_at(pi);
+	c->raw   = raw;
+	c->tran  = tran;
+	c->r     = r;
+	c->dials = dials;
+	c->poly  = c->pr == &poly_proto;
 	snprintf(c->name, sizeof(c->name), "%s%s", raw ? "x" : "", c->pr->name);
+	snprintf(c->tname, sizeof(c->tname), "%s%s", vf_tran_names[tran], dials ? "/role=dial" : "");
 	if ((rv = (raw ? c->pr->open_raw : c->pr->open)(&c->s)) != 0) vf_harness_fail("open %s: %s", c->name, nng_strerror(rv));
 	// long protocol timers: a call that waits for one of them is unambiguous
 	nng_socket_set_ms(c->s, NNG_OPT_REQ_RESENDTIME, 60000);
 	nng_socket_set_ms(c->s, NNG_OPT_SURVEYOR_SURVEYTIME, 2000);
+	// the socket's own timeouts are never what a NONBLOCK call may wait for
+	// (the timed retries carry theirs in an aio): long enough for clause (d)
+	nng_socket_set_ms(c->s, NNG_OPT_RECVTIMEO, 5000);
+	nng_socket_set_ms(c->s, NNG_OPT_SENDTIMEO, 5000);
 	if (!strcmp(c->pr->name, "sub") && !raw) nng_sub0_socket_subscribe(c->s, "", 0);
 	if (nng_ctx_open(&c->ctx, c->s) == 0) {
 		c->have_ctx = true;
+		nng_ctx_set_ms(c->ctx, NNG_OPT_RECVTIMEO, 5000);
+		nng_ctx_set_ms(c->ctx, NNG_OPT_SENDTIMEO, 5000);
 		nng_ctx_set_ms(c->ctx, NNG_OPT_REQ_RESENDTIME, 60000);
 		nng_ctx_set_ms(c->ctx, NNG_OPT_SURVEYOR_SURVEYTIME, 2000);
 		if (!strcmp(c->pr->name, "sub")) nng_sub0_ctx_subscribe(c->ctx, "", 0);
 	}
 	nng_pipe_notify(c->s, NNG_PIPE_EV_ADD_POST, pipe_cb, c);
 	nng_pipe_notify(c->s, NNG_PIPE_EV_REM_POST, pipe_cb, c);
+	if (dials) {
+		// fast redial: after the loss of a pipe the socket's own dialer
+		// brings it back before the next probe
+		nng_socket_set_ms(c->s, NNG_OPT_RECONNMINT, 3);
+		nng_socket_set_ms(c->s, NNG_OPT_RECONNMAXT, 3);
+		return;
+	}
 	vf_url(tran, url, sizeof(url));
 	if ((rv = nng_listen(c->s, url, &c->lst, 0)) != 0) vf_harness_fail("listen %s", nng_strerror(rv));
 	vf_dial_url(c->lst, tran, url, c->durl, sizeof(c->durl));
@@ -715,11 +933,13 @@ step_survey_expire(cx_t *c, char *label, size_t lsz)
 		nng_ctx_set_ms(c->ctx, NNG_OPT_SENDTIMEO, 1000);
 		rv = nng_ctx_sendmsg(c->ctx, m, 0);
 		nng_ctx_set_ms(c->ctx, NNG_OPT_SURVEYOR_SURVEYTIME, 2000);
+		nng_ctx_set_ms(c->ctx, NNG_OPT_SENDTIMEO, 5000);
 	} else {
 		nng_socket_set_ms(c->s, NNG_OPT_SURVEYOR_SURVEYTIME, 30);
 		nng_socket_set_ms(c->s, NNG_OPT_SENDTIMEO, 1000);
 		rv = nng_sendmsg(c->s, m, 0);
 		nng_socket_set_ms(c->s, NNG_OPT_SURVEYOR_SURVEYTIME, 2000);
+		nng_socket_set_ms(c->s, NNG_OPT_SENDTIMEO, 5000);
 		c->send_tried_since_recv = true;
 	}
 	if (rv != 0) nng_msg_free(m);
@@ -743,14 +963,18 @@ step_survey_expire(cx_t *c, char *label, size_t lsz)
 
 // the peer sends without blocking until it is refused (or 12 messages)
 static int
-peer_fill(cx_t *c, nng_socket peer, int cap)
+peer_fill(cx_t *c, nng_socket peer, int cap, bool *refused)
 {
-	int n = 0;
+	int n = 0, rv;
 	for (; n < cap; n++) {
 		nng_msg *m = fresh_msg(c);
-		if (nng_sendmsg(peer, m, NNG_FLAG_NONBLOCK) != 0) {
+		if ((rv = nng_sendmsg(peer, m, NNG_FLAG_NONBLOCK)) != 0) {
 			nng_msg_free(m);
-			vf_stat("peer_fill_refused", 1);
+			// (a peer that cannot send at all - PULL, SUB - is not "refused")
+			if (rv == NNG_EAGAIN) {
+				vf_stat("peer_fill_refused", 1);
+				if (refused != NULL) *refused = true;
+			}
 			break;
 		}
 		if ((n & 3) == 3) settle(c);
@@ -776,12 +1000,19 @@ open_peer(cx_t *c, int pi)
 	nng_socket_set_ms(c->peer, NNG_OPT_RECONNMINT, 3);
 	nng_socket_set_ms(c->peer, NNG_OPT_RECONNMAXT, 3);
 	if (!strcmp(pp->name, "sub")) nng_sub0_socket_subscribe(c->peer, "", 0);
-	if ((rv = nng_dial(c->peer, c->durl, NULL, 0)) != 0) return rv;
+	if (c->dials) {
+		char         url[128], durl[128];
+		nng_listener l;
+		vf_url(c->tran, url, sizeof(url));
+		if ((rv = nng_listen(c->peer, url, &l, 0)) != 0) return rv;
+		vf_dial_url(l, c->tran, url, durl, sizeof(durl));
+		if ((rv = nng_dial(c->s, durl, &c->dialers[pi], 0)) != 0) return rv;
+	} else if ((rv = nng_dial(c->peer, c->durl, NULL, 0)) != 0) return rv;
 	for (int i = 0; i < 2000; i++) {
 		// (a PAIR socket refuses further peers: then only the peer side
 		// count can be waited for, briefly)
 		if (vf_pipe_count(c->s) >= want && vf_pipe_count(c->peer) >= 1) break;
-		if (i > 100 && vf_pipe_count(c->s) >= 1 && !strncmp(c->pr->name, "pair", 4)) break;
+		if (i > 100 && vf_pipe_count(c->s) >= 1 && single_peer(c->pr)) break;
 		vf_msleep(1);
 	}
 	c->peers_open[pi] = true;
@@ -796,18 +1027,18 @@ is_proto(cx_t *c, const char *cooked_name)
 }
 
 static void
-run_case(long idx, vf_rng *r, int pi, bool raw, int tran, int nops)
+run_case(long idx, vf_rng *r, int pi, bool raw, int tran, int nops, bool dials)
 {
 	cx_t c;
 	int  rv;
-	open_local(&c, pi, raw, tran, r);
+	open_local(&c, pi, raw, tran, r, dials);
 	bool defer = vf_chance(r, 1, 2);
-	vf_case_begin(idx, "proto=%s tran=%s ops=%d lazyfds=%d", c.name, vf_tran_names[tran], nops, defer);
+	vf_case_begin(idx, "proto=%s tran=%s ops=%d lazyfds=%d", c.name, c.tname, nops, defer);
 	// half of the histories ask for the poll descriptors only after the
 	// first traffic: the library then creates them for a pollable that may
 	// already be raised
 	if (!defer) fetch_fds(&c, false);
-	c.npeers = strncmp(c.pr->name, "pair", 4) == 0 ? 1 : (int) vf_range(r, 1, 3);
+	c.npeers = single_peer(c.pr) ? 1 : (int) vf_range(r, 1, 3);
 	probe_all(&c, "open");
 	for (int i = 0; i < c.npeers; i++) {
 		if ((rv = open_peer(&c, i)) != 0) vf_harness_fail("peer: %s", nng_strerror(rv));
@@ -856,6 +1087,13 @@ run_case(long idx, vf_rng *r, int pi, bool raw, int tran, int nops)
 				what = "peer-close";
 				nng_socket_close(c.peer);
 				c.peers_open[pi] = false;
+				if (c.dials) {
+					// our dialer tries again a few times and is refused; then
+					// it is closed (a dialer that retries every 3 ms for good
+					// leaves no quiescent point)
+					vf_msleep(8);
+					nng_dialer_close(c.dialers[pi]);
+				}
 			} else {
 				what = "peer-open";
 				if (open_peer(&c, pi) != 0) vf_harness_fail("peer reopen");
@@ -870,11 +1108,34 @@ run_case(long idx, vf_rng *r, int pi, bool raw, int tran, int nops)
 			if (nng_pipe_id(p) > 0) {
 				int want = 0;
 				for (int k = 0; k < 3; k++) want += c.peers_open[k] ? 1 : 0;
-				if (!strncmp(c.pr->name, "pair", 4)) want = want ? 1 : 0;
+				if (single_peer(c.pr)) want = want ? 1 : 0;
+				nng_dialer d = nng_pipe_dialer(p);
 				nng_pipe_close(p);
 				vf_msleep(2);
-				// wait for the peer's dialer to come back
-				for (int k = 0; k < 1500 && vf_pipe_count(c.s) < want; k++) vf_msleep(1);
+				// wait for the peer's dialer (or, with the roles swapped, our
+				// own) to come back - and to stay: a PAIR peer that listens
+				// refuses the new connection as long as it has not noticed
+				// that the old one is gone, and it notices only when it
+				// reads; until then our dialer is accepted and dropped every
+				// few milliseconds.  So: let such a peer read.
+				long ev0    = c.pipe_events;
+				int  stable = 0, k;
+				for (k = 0; k < 1500 && stable < 12; k++) {
+					if (c.dials && (k % 20) == 10 && !strncmp(c.pr->peer_name, "pair", 4)) {
+						for (int q = 0; q < c.npeers; q++) if (c.peers_open[q]) peer_reads(&c, c.peers[q], 8, true);
+					}
+					vf_msleep(1);
+					long ev1 = c.pipe_events;
+					stable   = (vf_pipe_count(c.s) >= want && ev1 == ev0) ? stable + 1 : 0;
+					ev0      = ev1;
+					if (!c.dials && vf_pipe_count(c.s) >= want) break;
+				}
+				if (c.dials && stable < 12 && nng_dialer_id(d) > 0) {
+					// a dialer that is refused every 3 ms for good leaves no
+					// quiescent point
+					nng_dialer_close(d);
+					vf_stat("redials_given_up", 1);
+				}
 				vf_msleep(5);
 			}
 			break;
@@ -908,7 +1169,7 @@ run_case(long idx, vf_rng *r, int pi, bool raw, int tran, int nops)
 		case 10: // the peer sends until it is refused
 			what = "peer-fill";
 			if (!c.peer_open) break;
-			peer_fill(&c, c.peer, 12);
+			peer_fill(&c, c.peer, 12, NULL);
 			traffic = true;
 			break;
 		default:
@@ -919,13 +1180,15 @@ run_case(long idx, vf_rng *r, int pi, bool raw, int tran, int nops)
 			settle(&c);
 			fetch_fds(&c, true);
 		}
+		if (vf_verbose) fprintf(stderr, " step %d: %s (pipes %d)\n", i, what, vf_pipe_count(c.s));
 		if (hl + strlen(what) + 2 < sizeof(hist)) hl += (size_t) snprintf(hist + hl, sizeof(hist) - hl, "%s%s", i ? "," : "", what);
 		probe_all(&c, what);
 		vf_watchdog(60);
 	}
-	if ((idx % 7) == 0) vf_sample("{\"proto\":\"%s\",\"tran\":\"%s\",\"lazyfds\":%d,\"history\":\"%s\"}", c.name, vf_tran_names[tran], defer, hist);
+	if ((idx % 7) == 0) vf_sample("{\"proto\":\"%s\",\"tran\":\"%s\",\"lazyfds\":%d,\"history\":\"%s\"}", c.name, c.tname, defer, hist);
 	close_all(&c);
 	vf_stat("cases", 1);
+	if (dials) vf_stat("cases_role_dial", 1);
 	// allocator balance per case (so a leak is attributed to its case)
 	vf_nng_fini("C15");
 	vf_nng_init(4, 2, 2);
@@ -936,15 +1199,20 @@ run_case(long idx, vf_rng *r, int pi, bool raw, int tran, int nops)
 // an unsubscribe, a resize of a FULL queue, a new request that discards the
 // pending reply) and probes until everything is drained.  Enumerated, not
 // sampled: the pipe that holds the oldest pending message is among the j.
-enum { D_PIPE_CLOSE = 0, D_PEER_CLOSE, D_RESIZE_RECV, D_RESIZE_SEND, D_NONE, D_UNSUB, D_FULL_RECV, D_FULL_SEND, D_NEW_REQUEST, D_SURVEY_EXPIRE, D_FULL_SEND_WAITER, D_WAITER_DRAIN, D_N };
-static const char *dnames[D_N] = { "local-pipe-close", "peer-close", "resize-recvbuf", "resize-sendbuf", "none", "unsubscribe", "resize-full-recvbuf", "resize-full-sendbuf", "new-request", "survey-expire", "resize-full-sendbuf-waiter", "peer-recv-with-sender-waiting" };
-static const int   dtargets[D_N] = { 3, 3, 3, 3, 1, 2, 3, 3, 2, 2, 3, 2 };
+enum { D_PIPE_CLOSE = 0, D_PEER_CLOSE, D_RESIZE_RECV, D_RESIZE_SEND, D_NONE, D_UNSUB, D_FULL_RECV, D_FULL_SEND, D_NEW_REQUEST, D_SURVEY_EXPIRE, D_FULL_SEND_WAITER, D_WAITER_DRAIN, D_BIG_SEND, D_N };
+static const char *dnames[D_N] = { "local-pipe-close", "peer-close", "resize-recvbuf", "resize-sendbuf", "none", "unsubscribe", "resize-full-recvbuf", "resize-full-sendbuf", "new-request", "survey-expire", "resize-full-sendbuf-waiter", "peer-recv-with-sender-waiting", "tcp-path-full" };
+static const int   dtargets[D_N] = { 3, 3, 3, 3, 1, 2, 3, 3, 2, 2, 3, 2, 3 };
+static const char *big_targets[3] = { "peer-recv-1", "peers-recv-4", "resize-sendbuf-2to0" };
+#define BIG_MSG (256 * 1024)
 static const int   resize_from[3] = { 4, 1, 0 }, resize_to[3] = { 1, 0, 4 };
 
 static bool
 parked_applies(int pi, bool raw, int d)
 {
-	const char *n = vf_protos[pi].name;
+	const char *n = proto_at(pi)->name;
+	if (raw && proto_at(pi)->open_raw == NULL) return false;
+	// (D_BIG_SEND is enumerated apart: tcp only, sending protocols only)
+	if (d == D_BIG_SEND) return false;
 	if (d == D_UNSUB) return !raw && !strcmp(n, "sub");
 	if (d == D_NEW_REQUEST) return !raw && (!strcmp(n, "req") || !strcmp(n, "surveyor"));
 	if (d == D_SURVEY_EXPIRE) return !raw && !strcmp(n, "surveyor");
@@ -958,16 +1226,26 @@ run_parked(long idx, vf_rng *r, int pi, bool raw, int tran, int disruption, int 
 	int  rv;
 	char after[64];
 	bool asks_first;
-	open_local(&c, pi, raw, tran, r);
+	open_local(&c, pi, raw, tran, r, false);
 	// when are the poll descriptors created: at open, after the messages are
 	// pending (pollable already raised), or only after the disruption
 	int fdmode = (int) (idx % 3);
 	vf_case_begin(idx, "parked proto=%s tran=%s disruption=%s target=%d fdmode=%d", c.name, vf_tran_names[tran], dnames[disruption], target, fdmode);
 	snprintf(after, sizeof(after), "%s", dnames[disruption]);
-	bool full_send = disruption == D_FULL_SEND || disruption == D_FULL_SEND_WAITER || disruption == D_WAITER_DRAIN;
+	// D_BIG_SEND: back pressure of the KERNEL on the send side.  Over tcp
+	// small messages never fill anything, so "every pipe has a send in flight
+	// that does not complete" needs large messages and peers that do not
+	// read; the completion that must raise the send descriptor then arrives
+	// from the transport's partial-write path, long after the refusal.
+	bool big       = disruption == D_BIG_SEND;
+	bool full_send = disruption == D_FULL_SEND || disruption == D_FULL_SEND_WAITER || disruption == D_WAITER_DRAIN || big;
 	bool has_waiter = disruption == D_FULL_SEND_WAITER || disruption == D_WAITER_DRAIN;
+	bool fill_refused = false, recv_full = false;
 	nng_aio *waiter = NULL;
-	if (disruption == D_WAITER_DRAIN) {
+	if (big) {
+		snprintf(after, sizeof(after), "%s+%s", dnames[disruption], big_targets[target]);
+		nng_socket_set_int(c.s, NNG_OPT_SENDBUF, target == 2 ? 2 : (int) (idx % 2));
+	} else if (disruption == D_WAITER_DRAIN) {
 		snprintf(after, sizeof(after), "%s-%d", dnames[disruption], target + 1);
 		nng_socket_set_int(c.s, NNG_OPT_SENDBUF, 2);
 	} else if (disruption == D_FULL_RECV || full_send) {
@@ -975,7 +1253,7 @@ run_parked(long idx, vf_rng *r, int pi, bool raw, int tran, int disruption, int 
 		nng_socket_set_int(c.s, disruption == D_FULL_RECV ? NNG_OPT_RECVBUF : NNG_OPT_SENDBUF, resize_from[target]);
 	}
 	if (fdmode == 0) fetch_fds(&c, false);
-	c.npeers = strncmp(c.pr->name, "pair", 4) == 0 ? 1 : 3;
+	c.npeers = single_peer(c.pr) ? 1 : 3;
 	for (int i = 0; i < c.npeers; i++) {
 		if ((rv = open_peer(&c, i)) != 0) vf_harness_fail("peer");
 	}
@@ -998,7 +1276,14 @@ run_parked(long idx, vf_rng *r, int pi, bool raw, int tran, int disruption, int 
 	} else if (disruption == D_FULL_RECV) {
 		// every peer sends until it is refused (inproc) or 12 messages (the
 		// kernel takes what the socket does not)
-		for (int i = 0; i < c.npeers; i++) peer_fill(&c, c.peers[i], 12);
+		int got = 0;
+		for (int i = 0; i < c.npeers; i++) {
+			got += peer_fill(&c, c.peers[i], 12, &recv_full);
+		}
+		// nobody was refused (tcp): full all the same if more messages have
+		// ARRIVED (settle: nothing in flight) than queue and pipes can hold
+		settle(&c);
+		if (got >= resize_from[target] + 2 * c.npeers) recv_full = true;
 	} else if (!full_send) {
 		// every peer sends two messages, in a seeded peer order
 		int order[3] = { 0, 1, 2 };
@@ -1016,7 +1301,7 @@ run_parked(long idx, vf_rng *r, int pi, bool raw, int tran, int disruption, int 
 	if (full_send) {
 		// the local side sends (judged NONBLOCK probes) until it is refused;
 		// nobody reads
-		int n = 0, cap = 24;
+		int n = 0, cap = big ? 16 : 24;
 		fetch_fds(&c, true);
 		if (raw) {
 			// a routing header to echo, where the protocol wants one
@@ -1025,13 +1310,29 @@ run_parked(long idx, vf_rng *r, int pi, bool raw, int tran, int disruption, int 
 			probe(&c, false, F_MSG, "fill");
 			c.keep_stash = true;
 		}
+		if (big) {
+			// the kernel keeps little: a few messages fill the path
+			settle(&c);
+			tcp_small_buffers(32 * 1024);
+			c.msg_size = BIG_MSG;
+		}
 		for (; n < cap; n++) {
-			int rv1 = probe(&c, true, n % 3 == 2 ? F_AIO : F_MSG, "fill");
+			int rv1 = probe(&c, true, n % 3 == 2 ? F_AIO : F_MSG, big ? "tcp-path-fill" : "fill");
 			if (rv1 != 0) break;
 		}
 		if (n < cap) {
+			fill_refused = true;
 			vf_stat("send_fill_refused", 1);
-			vf_class("sendfill-refused/%s/%s", c.name, vf_tran_names[tran]);
+			if (tran == VF_T_TCP) vf_stat("send_fill_refused_tcp", 1);
+			vf_class("sendfill-refused/%s/%s%s", c.name, vf_tran_names[tran], big ? "/big" : "");
+		}
+		if (big) {
+			kq_t k;
+			kq_sample(&k);
+			if (k.unsent > 0) {
+				vf_stat("big_send_cases_kernel_queue_stuck", 1);
+				vf_class("tcp-path-full/%s/%s/%s", c.name, big_targets[target], fill_refused ? "refused" : "never-refused");
+			}
 		}
 		if (has_waiter) {
 			// and one more sender waits (blocking aio) when the queue is
@@ -1083,11 +1384,26 @@ run_parked(long idx, vf_rng *r, int pi, bool raw, int tran, int disruption, int 
 		}
 		break;
 	case D_FULL_RECV:
-		if (nng_socket_set_int(c.s, NNG_OPT_RECVBUF, resize_to[target]) == 0) vf_stat("resizes_of_full_recvbuf", 1);
+		// (counted only if the queue WAS full: a sender was refused, or more
+		// messages had arrived than it can hold)
+		if (nng_socket_set_int(c.s, NNG_OPT_RECVBUF, resize_to[target]) == 0 && recv_full) vf_stat("resizes_of_full_recvbuf", 1);
 		break;
 	case D_FULL_SEND:
 	case D_FULL_SEND_WAITER:
-		if (nng_socket_set_int(c.s, NNG_OPT_SENDBUF, resize_to[target]) == 0) vf_stat("resizes_of_full_sendbuf", 1);
+		// (counted only if the fill ended with a refusal)
+		if (nng_socket_set_int(c.s, NNG_OPT_SENDBUF, resize_to[target]) == 0 && fill_refused) vf_stat("resizes_of_full_sendbuf", 1);
+		break;
+	case D_BIG_SEND:
+		// one peer takes one message / every peer takes up to four / the
+		// send queue shrinks: whatever completes on a pipe from now on
+		// completes long after the refusal
+		if (target == 0) {
+			if (c.peers_open[0]) peer_reads(&c, c.peers[0], 1, true);
+		} else if (target == 1) {
+			for (int i = 0; i < c.npeers; i++) if (c.peers_open[i]) peer_reads(&c, c.peers[i], 4, true);
+		} else if (nng_socket_set_int(c.s, NNG_OPT_SENDBUF, 0) == 0 && fill_refused) {
+			vf_stat("resizes_of_full_sendbuf", 1);
+		}
 		break;
 	case D_NEW_REQUEST: {
 		// the reply / the responses are pending unread: a new request or
@@ -1158,7 +1474,7 @@ run_reply_busy(long idx, vf_rng *r, int tran, int target)
 	int        busy_at   = -1;
 	int        cap       = tran == VF_T_INPROC ? 12 : 48;
 	while (strcmp(vf_protos[pi].name, "rep") != 0) pi++;
-	open_local(&c, pi, false, tran, r);
+	open_local(&c, pi, false, tran, r, false);
 	vf_case_begin(idx, "parked proto=rep tran=%s disruption=reply-path-busy form=%s", vf_tran_names[tran], onctx ? "ctx" : "socket");
 	fetch_fds(&c, false);
 	if ((rv = nng_req0_open_raw(&xreq)) != 0) vf_harness_fail("xreq open: %s", nng_strerror(rv));
@@ -1208,29 +1524,59 @@ run_reply_busy(long idx, vf_rng *r, int tran, int target)
 	vf_nng_init(4, 2, 2);
 }
 
+// can the (cooked / raw) protocol send without having received first?
+static bool
+sends_unasked(int pi, bool raw)
+{
+	const char *n = proto_at(pi)->name;
+	if (!strcmp(n, "sub") || !strcmp(n, "pull")) return false;
+	if (!raw && (!strcmp(n, "rep") || !strcmp(n, "respondent"))) return false; // REP: reply-busy
+	return true;
+}
+
 int
 main(int argc, char **argv)
 {
 	vf_init(argc, argv);
 	vf_nng_init(4, 2, 2);
 	vf_rng r;
-	// enumerate protocol x raw x transport, several histories each
+	bool m_hist = vf_mode[0] == 0, m_parked = !strcmp(vf_mode, "parked"), m_parked2 = !strcmp(vf_mode, "parked2");
+	// enumerate protocol x raw x transport, several histories each.  The role
+	// (who listens, who dials) alternates so that every (name, transport)
+	// meets both within two repetitions.
 	long idx = 0;
 	int  reps = vf_cases > 0 ? (int) vf_cases : 1;
-	if (!strcmp(vf_mode, "parked")) reps = 0;
+	if (!m_hist) reps = 0;
 	for (int rep = 0; rep < reps; rep++) {
 		for (int pi = 0; pi < vf_nprotos; pi++) {
 			for (int raw = 0; raw < 2; raw++) {
 				for (int t = 0; t < 2; t++, idx++) {
 					if ((idx % vf_nshards) != vf_shard || !vf_want_case(idx)) continue;
 					vf_rng_seed(&r, vf_seed, (uint64_t) idx);
-					run_case(idx, &r, pi, raw != 0, t == 0 ? VF_T_INPROC : VF_T_TCP, (int) vf_range(&r, 6, 14));
+					run_case(idx, &r, pi, raw != 0, t == 0 ? VF_T_INPROC : VF_T_TCP, (int) vf_range(&r, 6, 14), ((rep + pi + raw) & 1) != 0);
+				}
+			}
+		}
+	}
+	// added later, numbered apart so that the cases above keep their numbers:
+	// pair1 polyamorous over inproc and tcp, and every name over ipc
+	idx = 500000;
+	for (int rep = 0; rep < reps; rep++) {
+		for (int pi = 0; pi < NPROTOS; pi++) {
+			for (int raw = 0; raw < 2; raw++) {
+				for (int t = 0; t < 3; t++, idx++) {
+					static const int trans[3] = { VF_T_INPROC, VF_T_TCP, VF_T_IPC };
+					if (raw && proto_at(pi)->open_raw == NULL) continue;
+					if (pi < vf_nprotos && trans[t] != VF_T_IPC) continue; // numbered above
+					if ((idx % vf_nshards) != vf_shard || !vf_want_case(idx)) continue;
+					vf_rng_seed(&r, vf_seed, (uint64_t) idx);
+					run_case(idx, &r, pi, raw != 0, trans[t], (int) vf_range(&r, 6, 14), ((rep + pi + raw + t) & 1) != 0);
 				}
 			}
 		}
 	}
 	// enumerated parked-message scenarios
-	if (!strcmp(vf_mode, "parked") || vf_tier == 1) {
+	if (m_parked || vf_tier == 1) {
 		long pidx = 1000000;
 		for (int pi = 0; pi < vf_nprotos; pi++) {
 			for (int raw = 0; raw < 2; raw++) {
@@ -1252,6 +1598,34 @@ main(int argc, char **argv)
 					if ((pidx % vf_nshards) != vf_shard || !vf_want_case(pidx)) continue;
 					vf_rng_seed(&r, vf_seed, (uint64_t) pidx);
 					run_reply_busy(pidx, &r, t == 0 ? VF_T_INPROC : VF_T_TCP, tg);
+				}
+			}
+		}
+	}
+	// second set (own run line in the quick tier): the tcp path filled with
+	// large messages for every protocol that sends, and the parked scenarios
+	// for pair1 polyamorous
+	if (m_parked2 || vf_tier == 1) {
+		long pidx = 2000000;
+		for (int tg = 0; tg < dtargets[D_BIG_SEND]; tg++) {
+			for (int pi = 0; pi < NPROTOS; pi++) {
+				for (int raw = 0; raw < 2; raw++, pidx++) {
+					if (raw && proto_at(pi)->open_raw == NULL) continue;
+					if (!sends_unasked(pi, raw != 0)) continue;
+					if ((pidx % vf_nshards) != vf_shard || !vf_want_case(pidx)) continue;
+					vf_rng_seed(&r, vf_seed, (uint64_t) pidx);
+					run_parked(pidx, &r, pi, raw != 0, VF_T_TCP, D_BIG_SEND, tg);
+				}
+			}
+		}
+		pidx = 2100000;
+		for (int t = 0; t < 2; t++) {
+			for (int d = 0; d < D_N; d++) {
+				if (!parked_applies(vf_nprotos, false, d)) continue;
+				for (int tg = 0; tg < dtargets[d]; tg++, pidx++) {
+					if ((pidx % vf_nshards) != vf_shard || !vf_want_case(pidx)) continue;
+					vf_rng_seed(&r, vf_seed, (uint64_t) pidx);
+					run_parked(pidx, &r, vf_nprotos, false, t == 0 ? VF_T_INPROC : VF_T_TCP, d, tg);
 				}
 			}
 		}
